@@ -91,6 +91,8 @@ def reify_edges(g: Graph, model: Model) -> Graph:
                        :ARG2 7))
     """
     vars = g.variables()
+    # new node variables must not capture constants spelled like them
+    vars.update(tgt for _, _, tgt in g.triples if isinstance(tgt, str))
     if model is None:
         model = Model()
     new_epidata = dict(g.epidata)
@@ -189,6 +191,10 @@ def reify_attributes(g: Graph) -> Graph:
            :mod (_ / 7))
     """
     variables = g.variables()
+    # new node variables must not capture constants spelled like them
+    taken = variables.union(
+        tgt for _, _, tgt in g.triples if isinstance(tgt, str)
+    )
     new_epidata = dict(g.epidata)
     new_triples: List[BasicTriple] = []
     i = 2
@@ -197,10 +203,10 @@ def reify_attributes(g: Graph) -> Graph:
         if role != CONCEPT_ROLE and target not in variables:
             # get unique var for new node
             var = '_'
-            while var in variables:
+            while var in taken:
                 var = f'_{i}'
                 i += 1
-            variables.add(var)
+            taken.add(var)
             role_triple = (source, role, var)
             node_triple = (var, CONCEPT_ROLE, target)
             new_triples.extend((role_triple, node_triple))
